@@ -228,3 +228,23 @@ package dawn
 //@ func (*dawn.Project).builtin_glob$1
 //@   retassert prunes-only-build-state: (result != nil && result != err) ==> path == "/.dawn/build"
 //@   modifies heap
+
+// ---------------------------------------------------------------- C15: corrupted records surface as errors
+
+// envUnpickler meets the interface contract of pickle.Unpickler: success comes with a value.
+//@ func dawn.envUnpickler
+//@   requires args-nonnil: forall i: int :: 0 <= i && i < len(args) ==> args[i] != nil
+//@   ensures  value-or-error: result.1 == nil ==> result.0 != nil
+//@   modifies heap, dkeys, dvals
+
+// A record that does not parse is an error, never an empty record.
+//@ func (*dawn.Project).loadTargetInfo
+//@   requires proj != nil && label != nil
+//@   ensures  json-error-returned: (n_json == old(n_json) + 1 && json_failed) ==> result.1 != nil
+//@   modifies heap, n_json, json_failed
+
+// Loading a function target reports every error of reading or decoding its record.
+//@ func (*dawn.function).load
+//@   requires f != nil
+//@   retassert errors-propagate: result == nil ==> err == nil
+//@   modifies heap, n_json, json_failed, n_save, saved_rerun, saved_data, saved_deps, ipos
